@@ -454,7 +454,11 @@ class Sim:
             raise HarnessError(f"unknown policy {policy}")
         evs = list(gs)
         if self.env_events is not None:
-            evs.extend(self.env_events(self))
+            if self.cfg.get("env_first"):
+                # an impatient user: what the environment may do now comes first (choice 0)
+                evs = list(self.env_events(self)) + evs
+            else:
+                evs.extend(self.env_events(self))
         return evs
 
     def fire(self, ev):
